@@ -686,6 +686,13 @@ def regenerate():
         if write_if_changed(os.path.join(GEN, 'Flow.lean'), txt): res['changed'].append('Flow.lean')
     except Exception as e:  # noqa
         res['errors'].append(f"Flow: {type(e).__name__}: {e}")
+    try:
+        import asserted_gen
+        txt, errs = asserted_gen.gen_asserted()
+        res['errors'] += [f"Asserted: {x}" for x in errs]
+        if write_if_changed(os.path.join(GEN, 'Asserted.lean'), txt): res['changed'].append('Asserted.lean')
+    except Exception as e:  # noqa
+        res['errors'].append(f"Asserted: {type(e).__name__}: {e}")
     return res
 
 
